@@ -1,6 +1,7 @@
 """C07 — a false guard makes code inert; a true guard is transparent."""
 import copy
-import tracecheck, progs, matrixcases
+import random
+import tracecheck, progs, matrixcases, blockgen
 
 PID = "C07"
 PROFILE = {"p_ignore": 0.0, "p_valid_inputs": 0.45, "guard_inputs": [0, 3], "max_guard_depth": 3, "lengths": [4, 6, 8, 10],
@@ -20,7 +21,22 @@ def has(prog, kind):
     return any(s[0] == kind or (s[0] == "guarded" and has(s[2], kind)) or (s[0] == "itelazy" and (has(s[3], kind) or has(s[5], kind))) for s in prog)
 
 
+def block_cases(seed, k):
+    """block-API programs (not-taken _if / _elif / loop iterations are regions with a false guard): in-place writes into list and
+    Array variables, boolean variables; compared with the native-control-flow twin"""
+    rnd = random.Random(seed * 31 + 7)
+    out = []
+    while len(out) < k:
+        c = blockgen.gen_case(rnd, [progs.BN, 65537])
+        if c.get("arrays") or "bsetidx" in str(c["prog"]) or rnd.random() < 0.3:
+            c["block"] = 1; out.append(c)
+    return out
+
+
 def variants(case, rnd):
+    if case.get("block"):
+        import props.c09 as c09
+        return [dict(v, block=1) for v in c09.variants(case, rnd)]
     """(1) guards forced false with arbitrary (possibly invalid) body operands; (2) guards forced true + the same program with the
     guarded regions inlined (transparency twin)"""
     n, p = case["cfg"]["n"], case["cfg"]["p"]
@@ -58,6 +74,11 @@ def key_of(rec):
 
 
 def oracle(case, rec, group):
+    if case.get("block"):
+        import props.c09 as c09
+        vs = c09.oracle(case, rec, group)
+        for v in vs: v["op"] = "inert-block"
+        return vs
     out = []
     # inert: nothing inside a region whose effective guard is false may raise because of the values it meets
     if rec["exn"] in VALUE_ERRORS and rec.get("exn_ctx") and false_guard(rec["exn_ctx"]) and not case["cfg"]["ign"]:
@@ -91,6 +112,8 @@ def run(tier, seed):
     # deterministic part: every assertion / decomposition / division x operand kinds inside guarded regions, each run with the
     # guards false on arbitrary operands (inert), true (transparent) and with the regions inlined
     pending = matrixcases.assertion_contexts(tier, ctxs=["g1", "g1g1", "lazy1"], bin_ctxs=["g1"])
+    if tier == "quick": pending = pending[seed % 2::2]            # half of the matrix per run (which half depends on the seed)
+    pending += block_cases(seed, 24 if tier == "quick" else 300)
     return tracecheck.run(PID, tier, seed, PROFILE, oracle, n_quick=4 * len(pending) + 320, n_thorough=4 * len(pending) + 6000, variants=variants, post=post, mask=1 | 2 | 4 | 8,
                           casegen=matrixcases.with_pending(pending, PROFILE))
 
